@@ -60,7 +60,7 @@ def variant_names():
     return ["base", "flx_shape", "flx_values", "z", "u", "v", "Kx", "Ky", "Kz", "domain", "levels_scalar", "levels_list", "levels_reordered",
             "modes", "meas_pt", "bg", "analytic", "halo_none", "halo_resolved", "halo_zero", "halo_other", "halo_same_pads", "halo_other_py", "halo_other_px", "precision", "dispersion",
             "const_numeric", "const_analytic", "levels_long_a", "levels_long_b", "modes_over_x", "modes_clamped_x", "profiles_swapped",
-            "levels_digits_a", "levels_digits_b", "shape_digits_a", "shape_digits_b"]
+            "levels_digits_a", "levels_digits_b", "shape_digits_a", "shape_digits_b", "one_row_multi", "one_col_multi"]
 
 
 def build(name):
@@ -97,6 +97,11 @@ def build(name):
         if name.startswith("shape"):
             r["srf_flx"] = np.zeros((26, 40)) if name.endswith("_a") else np.zeros((6, 40))
             r["modes"] = (8, 6)
+    elif name in ("one_row_multi", "one_col_multi"):
+        # a vertical-plane set-up (one row / one column of cells) with several output levels
+        r["srf_flx"] = np.zeros((1, 12)) if name == "one_row_multi" else np.zeros((10, 1))
+        r["levels"] = [2, 4, 6]
+        r["meas_pt"] = (50.0, 0.0) if name == "one_row_multi" else (0.0, 32.0)
     elif name == "flx_shape":
         r["srf_flx"] = np.zeros((12, 14))
     elif name == "flx_values":
@@ -179,10 +184,23 @@ class Monitors:
         self.events = []
         ev = self.events
 
+        mon = self
+        self.interleave = False
+        self.prev_lookup = None
+        self.escalate = False
+
         class Rec(GreensFunctionCache):
             def get(self, *a, **k):
                 r = super().get(*a, **k)
                 ev.append(("get", "hit" if r is not None else "miss"))
+                if mon.interleave:
+                    # schedule injection at the cache's own boundary: between this lookup and the store that follows a miss, another client of
+                    # the same cache object (a second thread, a re-entrant caller) looks up the request that was looked up before this one
+                    if r is None and mon.prev_lookup is not None:
+                        pa, pk = mon.prev_lookup
+                        GreensFunctionCache.get(self, *pa, **pk)
+                        mon.interleaved_lookups = getattr(mon, "interleaved_lookups", 0) + 1
+                    mon.prev_lookup = (a, k)
                 return r
 
             def put(self, *a, **k):
@@ -208,7 +226,15 @@ class Monitors:
         n0, s0 = len(self.events), self.sweeps
         kw = dict(req)
         args = [kw.pop(k) for k in ("srf_flx", "z", "profiles", "domain", "levels")]
-        res = S(*args, cache=self.cache, **kw)
+        if self.escalate:
+            # a caller that turns warnings into errors (python -W error): what lies in the cache directory must not make the call fail
+            import warnings as _w
+
+            with _w.catch_warnings():
+                _w.simplefilter("error")
+                res = S(*args, cache=self.cache, **kw)
+        else:
+            res = S(*args, cache=self.cache, **kw)
         return res, self.events[n0:], self.sweeps - s0
 
 
@@ -489,12 +515,27 @@ def sequence(case):
     # (1) one process
     d = tempfile.mkdtemp(dir=".", prefix="seq_")
     M = Monitors(d)
+    M.interleave = bool(case["idx"] % 2)
     try:
         seen = set()
+        if case["idx"] % 3 == 0:
+            # an entry left in the directory by another writer of the documented positional form put(z, profiles, domain, modes, meas_pt,
+            # halo, precision, grid, conc, flx) - an older release, a script of the user's: it says nothing about levels, grid shape,
+            # closed-form switch or background, so it is not the answer to any request that names them
+            import numpy as np
+
+            r0 = build(hist[0])
+            g0, c0, f0 = ref[hist[0]]
+            from bldfm.cache import GreensFunctionCache as _G
+
+            _G.put(M.cache, r0["z"], r0["profiles"], r0["domain"], r0["modes"], r0["meas_pt"], r0["halo"], r0["precision"],
+                   g0, np.full_like(np.asarray(c0), 123.0), np.full_like(np.asarray(f0), -123.0))
+            counters["entries_left_by_another_writer"] = 1
         for nm in hist:
             res, ev, sw = M.solve(build(nm))
             check_step(nm, res, ev, sw, ref, seen, viol, dict(history=hist, processes=1), counters)
         counters["histories"] += 1
+        counters["lookups_interleaved_between_a_miss_and_its_store"] = getattr(M, "interleaved_lookups", 0)
     finally:
         M.close()
         shutil.rmtree(d, ignore_errors=True)
@@ -548,6 +589,10 @@ def _store(nm, d):
 def _probe(nm, d, ref, viol, ctx, counters):
     """Issue request nm on directory d; it must come back correct, whatever lies there."""
     M = Monitors(d)
+    M.escalate = bool(counters.get("probes", 0) % 2)
+    if M.escalate:
+        counters["probes_with_warnings_escalated_to_errors"] = counters.get("probes_with_warnings_escalated_to_errors", 0) + 1
+        ctx = dict(ctx, caller="warnings escalated to errors")
     try:
         try:
             res, ev, sw = M.solve(build(nm))
